@@ -544,7 +544,17 @@ func (w *World) progress() bool {
 		}
 	}
 	if core.ParkedCount() > 0 && (!did || w.Sched.Chance(1, 4)) {
-		if core.ReleaseParked(w.Sched) {
+		// a short timer that is about to fire (write-delay flush) may go first:
+		// a parked goroutine then sits between two statements while a buffered
+		// packet travels and its answer comes back
+		nw := rt.NextWake()
+		if d := time.Duration(nw - time.Now().UnixNano()); !did && nw != 0 && d <= w.shortHorizon() && w.Sched.Chance(1, 2) {
+			if d < 0 {
+				d = 0
+			}
+			time.Sleep(d)
+			did = true
+		} else if core.ReleaseParked(w.Sched) {
 			did = true
 		}
 	}
